@@ -293,6 +293,35 @@ fn transcript<C: S>(g: &str, seed: u64, m: &mut Map<String, Value>) {
     }
 }
 
+/// human readable scalar documents that are NOT what the library writes: whatever each backend makes of them (error
+/// or value) must be the same
+fn scalar_documents<C: S>(g: &str, seed: u64, m: &mut Map<String, Value>) {
+    let ks = keys::<C>(seed);
+    let canon = serde_json::to_string(&ks[3].1).unwrap();
+    let hexs = canon.trim_matches('"').to_string();
+    let docs: Vec<(&str, String)> = vec![
+        ("canonical", canon.clone()),
+        ("0x-prefixed", format!("\"0x{}\"", hexs)),
+        ("0x-short-even", "\"0x1234\"".to_string()),
+        ("0x-short-odd", "\"0x123\"".to_string()),
+        ("upper-case", format!("\"{}\"", hexs.to_uppercase())),
+        ("leading-space", format!("\" {}\"", hexs)),
+        ("63-digits", format!("\"{}\"", &hexs[1..])),
+        ("65-digits", format!("\"0{}\"", hexs)),
+        ("array-of-numbers", format!("[{}]", ks[3].1.to_be_bytes().iter().map(|b| b.to_string()).collect::<Vec<_>>().join(","))),
+        ("number", "7".to_string()),
+    ];
+    for (n, d) in docs {
+        let r = std::panic::catch_unwind(|| serde_json::from_str::<SecretKey<C>>(&d).map(|k| hx(k.to_be_bytes())).map_err(|_| "Err".to_string()));
+        let v = match r {
+            Ok(Ok(h)) => h,
+            Ok(Err(e)) => e,
+            Err(_) => "PANIC".to_string(),
+        };
+        m.insert(format!("{}/decode-scalar-json/{}", g, n), json!(v));
+    }
+}
+
 fn produce<C: S>(g: &str, seed: u64, out: &mut Vec<Value>) {
     let ks = keys::<C>(seed);
     let sk = &ks[4].1;
@@ -443,6 +472,8 @@ fn main() {
             let mut m = Map::new();
             transcript::<Bls12381G1Impl>("G1", seed, &mut m);
             transcript::<Bls12381G2Impl>("G2", seed, &mut m);
+            scalar_documents::<Bls12381G1Impl>("G1", seed, &mut m);
+            scalar_documents::<Bls12381G2Impl>("G2", seed, &mut m);
             std::fs::write(&args[2], serde_json::to_string(&json!({"backend":backend,"items":m})).unwrap()).unwrap();
         }
         Some("produce") => {
